@@ -1127,7 +1127,20 @@ def _terminator(prog: Program, run: Run) -> None:
             "decode_state.cursor_byte_position != len(decode_state.coded_message) and "
             "decode_state.cursor_byte_position - orig_cursor_pos != self.max_length",
             mode="eval").body)
-        got = conj_test(path_conditions(dcfg, dcfg.node_of(skip[0]), loop_exits=False))
+        # a local that merely stands for decode_state.coded_message is read through
+        msg_alias = {x.targets[0].id for x in walk_no_nested(d.node) if isinstance(x, ast.Assign)
+                     and isinstance(x.targets[0], ast.Name) and
+                     ast.unparse(x.value) == "decode_state.coded_message"}
+
+        class _Msg(ast.NodeTransformer):
+            def visit_Name(self, node: ast.Name) -> ast.AST:
+                if node.id in msg_alias and isinstance(node.ctx, ast.Load):
+                    return ast.parse("decode_state.coded_message", mode="eval").body
+                return node
+        import copy as _copy
+        pcs = [(_Msg().visit(_copy.deepcopy(t)), pol) for t, pol in path_conditions(
+            dcfg, dcfg.node_of(skip[0]), loop_exits=False)]
+        got = conj_test(pcs)
         if got == want:
             run.ok(R, "MinMaxLengthType.decode_from_pdu", "terminator skipped iff not at the end "
                    "of the PDU and fewer than MAX-LENGTH bytes were consumed",
